@@ -1,0 +1,62 @@
+//go:build verif
+
+package tags
+
+// Contracts for the verification machinery in /verif (govc). Comment-only file:
+// compiled only with -tags verif, and even then it contains no code.
+
+//@ interface tags.iterable
+//@ method Len pure
+//@ ensures nonneg: result >= 0
+//@ method Index pure
+//@ requires inrange: 0 <= arg0 && arg0 < this.Len()
+
+//@ typeinv tags.offsetWrapper: self.n > 0 && self.i != nil
+//@ typeinv tags.limitWrapper: self.n >= 0 && self.i != nil
+//@ typeinv tags.reverseWrapper: self.i != nil
+
+//@ func tags.intMax
+//@ pure
+//@ props C11 C01
+//@ ensures max: result == max(a, b)
+
+//@ func tags.intMin
+//@ pure
+//@ props C11 C01
+//@ ensures min: result == min(a, b)
+
+//@ func (tags.offsetWrapper).Len
+//@ pure
+//@ overflow
+//@ props C11 C01
+//@ ensures drop: result == max(0, w.i.Len() - w.n)
+
+//@ func (tags.offsetWrapper).Index
+//@ pure
+//@ overflow
+//@ props C11 C01
+//@ requires inrange: 0 <= i && i < max(0, w.i.Len() - w.n)
+//@ ensures shift: result == w.i.Index(i + w.n)
+
+//@ func (tags.limitWrapper).Len
+//@ pure
+//@ props C11 C01
+//@ ensures take: result == min(w.n, w.i.Len())
+
+//@ func (tags.limitWrapper).Index
+//@ pure
+//@ props C11 C01
+//@ requires inrange: 0 <= i && i < min(w.n, w.i.Len())
+//@ ensures same: result == w.i.Index(i)
+
+//@ func (tags.reverseWrapper).Len
+//@ pure
+//@ props C11 C01
+//@ ensures same: result == w.i.Len()
+
+//@ func (tags.reverseWrapper).Index
+//@ pure
+//@ overflow
+//@ props C11 C01
+//@ requires inrange: 0 <= i && i < w.i.Len()
+//@ ensures mirror: result == w.i.Index(w.i.Len() - 1 - i)
